@@ -211,7 +211,7 @@ int main(int argc, char** argv)
       "the group and every boolean/character option. A class key = (entry-point group, option byte mod 32, outcome returned/bpp-exception/foreign); the libFuzzer stage adds coverage-guided inputs "
       "and reports its own counters (executions, coverage edges, corpus size) in the evidence.";
   meta.assumptions = {
-    "inputs whose numeric literals legitimately size the output (class counts, seq(from,to,step), a-b ranges) are rejected by a pre-filter when a literal has more than 3 consecutive digits or an exponent, so a time-out or allocation ceiling can only mean non-termination / unbounded growth",
+    "inputs whose numeric literals legitimately size the output (class counts, seq(from,to,step), a-b ranges) are rejected by a pre-filter when a literal has more than 3 consecutive digits or an exponent, and distribution descriptions when a class count n= exceeds 16 (each class costs quantile evaluations), so a time-out or allocation ceiling can only mean non-termination / unbounded growth",
     "parseOptions is never given a 'param=' argument (it would open arbitrary files)",
     "termination is decided by bounded wall-clock watchdogs (libFuzzer -timeout, chunk watchdog re-run alone), not proved",
     "bytes >= 0x80 passed to <cctype> classification inside the library are not flagged (no sanitizer observes it)",
